@@ -1,4 +1,4 @@
-import GeffProofs.LinkStoreMem
+import GeffProofs.LinkStoreArr
 import GeffProofs.PartialRead
 /-! Integration layer, link C09 ← C01 (part 1): the translation between the two store abstractions —
 C01's flat path → entry store (`Geff.Store.St`, read with C01's own `readMeta` / `propNames` /
